@@ -158,7 +158,10 @@ def run(chk):
     chk.rule('C06-R6', 'periodic index for offset o on axis a is rightwrap(i_a + o, g_a)', 18)
     chk.rule('C06-R7', '_wrap_inplace: one +-box correction per component, tests >= box and < 0', 1)
     chk.rule('C06-R8', 'a supplied grid is accumulated into (never zeroed or replaced) and returned', 3)
+    chk.rule('C06-R9', 'parallel front end: partition_parallel hands the kernel each particle with its own weight (obligations of C17-R2/R4: one cursor per particle, weights moved and sorted with positions)', 4)
     chk.assume('|round(x) - x| <= 1/2 (L6); float rounding not modelled')
+    from . import c17
+    chk.import_from(c17.run, 'C17', ('C17-R2', 'C17-R4'), 'C06-R9')
     table(chk, TSC, '_tsc_scatter', 'tsc')
     table(chk, CIC, 'cic_serial', 'cic')
     helpers(chk)
